@@ -284,17 +284,24 @@ func c08Direct(r *eng.Run) {
 	r.Note("C08 ControlHandler.Handle side=%d disableSrcCiphering=%v frame=%s payload=%x seg=%d", side, disable, frameStr(f), head(f.Payload, 16), src.SegMode)
 	r.Res.Nontrivial = true
 	var err error
+	hdr := hdrOf(f)
+	if disable && hdr.Masked && r.T.Bool(sim.LCfg) {
+		// The frame was pulled with ws.ReadFrame and unmasked with
+		// ws.UnmaskFrameInPlace, which clears Masked and Mask in the header.
+		hdr.Masked, hdr.Mask = false, [4]byte{}
+		r.Probe("header_of_a_frame_unmasked_in_place")
+	}
 	if r.T.Bool(sim.LEntry) {
-		err = h.Handle(hdrOf(f))
+		err = h.Handle(hdr)
 	} else {
 		// The exported per-opcode handlers, called directly.
 		switch f.Op {
 		case ref.OpPing:
-			err = h.HandlePing(hdrOf(f))
+			err = h.HandlePing(hdr)
 		case ref.OpPong:
-			err = h.HandlePong(hdrOf(f))
+			err = h.HandlePong(hdr)
 		default:
-			err = h.HandleClose(hdrOf(f))
+			err = h.HandleClose(hdr)
 		}
 		r.Probe("per_opcode_handler_called_directly")
 	}
